@@ -14,7 +14,7 @@ THEOREMS = [
     "C01_header_roundtrip", "C01_budget", "C01_writer_accepts",
     "C01_paths_agree", "C01_oid_is_git", "C01_git_reads", "C01_reads_git",
     "C01_reads_all_git_accepts", "C01_reader_lenient_refuted",
-    "C01_short_write", "C01_overflow_truncates",
+    "C01_short_write", "C01_overflow_truncates", "C01_chunking_independent", "C01_read_header_spec",
     "C01_memobj_fresh", "C01_memobj_stale_refuted",
     "C01_sha_extend", "C01_digest_shape",
 ]
@@ -125,9 +125,9 @@ class Write(Suite):
     name = "write"
     go_cmd = "c01"
     coq_imports = "From GoGit Require Import Spec.SHA Model.ObjFile."
-    quick_n = 220
-    thorough_n = 4000
-    coq_chunk = 56
+    quick_n = 200
+    thorough_n = 1600
+    coq_chunk = 50
 
     def gen(self, rng, n, tier):
         cases = []
@@ -313,9 +313,9 @@ class Read(Suite):
     name = "read"
     go_cmd = "c01"
     coq_imports = "From GoGit Require Import Spec.SHA Model.ObjFile Spec.LooseGit."
-    quick_n = 130
-    thorough_n = 2500
-    coq_chunk = 66
+    quick_n = 120
+    thorough_n = 1000
+    coq_chunk = 60
 
     def gen(self, rng, n, tier):
         cases = []
